@@ -18,7 +18,7 @@ RULE = (
     "scope iff the whole-file read_block(0,N) succeeds. Then: whole read == independent decode; every (start,nsamps) == columns of the whole "
     "read (out-of-range must raise); read_plan for every gulp 1..N+2 x every sub-range x skipback {0, <= gulp/2} delivers [start,start+nsamps) "
     "exactly once; collapse/bandpass/read_chan/dedisperse/compute_stats for several gulps == the same on a 32-bit .fil written from the whole "
-    "read; header quantities are plain int/float in MHz/s/MJD. Non-trivial = request not aligned to sub-integration boundaries or > 1 block"
+    "read; header quantities are plain int/float in MHz/s/MJD; two files of 150 sub-integrations (300 thorough) with reduced request sets. Non-trivial = request not aligned to sub-integration boundaries or > 1 block"
 )
 ASSUMPTIONS = [
     "files are synthesised with astropy.io.fits following the layout of the repository's sample file (DATA column TPF, sub-byte samples packed MSB-first along the flattened TPF order)",
@@ -46,6 +46,9 @@ def shards(tier: str, seed: int) -> list:
     for layout in ("coherence", "stokes"):
         for short in (1, 2):
             out.append({"layout": layout, "nbits": 8, "nsblk": 4, "nsub": 3, "order": "desc", "nstot_short": short})
+    # scale lane: files of 150 sub-integrations (row-varying scales, offsets and weights), reduced request sets
+    for layout, order in (("coherence", "desc"), ("stokes", "asc")):
+        out.append({"layout": layout, "nbits": 8, "nsblk": 4, "nsub": 150 if tier == "quick" else 300, "order": order, "long": True})
     return out
 
 
@@ -65,6 +68,10 @@ def _make(wd, shard, seed):
     scl = 1.0 + 0.25 * rng.integers(0, 8, size=(nsub, npol, nchan))
     offs = 2.0 * rng.integers(-4, 5, size=(nsub, npol, nchan))
     wts = rng.choice([1.0, 0.5, 0.25], size=(nsub, nchan))
+    if nsub == 3:
+        # flag-style weights as well: a zero in some rows, all-ones in another
+        wts[0, 1] = 0.0
+        wts[1, :] = 1.0
     zero_off = 7.5 if nbits == 4 else 0.5
     path = str(wd / "syn.sf")
     nstot = None
@@ -142,8 +149,14 @@ def run_shard(shard: dict, ctx, res, only=None) -> None:
             res.outcome("header/ok")
             res.nontrivial += 1
     # ---- every (start, nsamps)
-    for start in range(-1, N + 1):
-        for ns in range(1, N + 2):
+    long = bool(shard.get("long"))
+    if long:
+        sts = [-1, 0, 1, nsblk * 63 + 1, nsblk * 64, nsblk * 64 + 2, nsblk * 130 + 3, N - 5, N]
+        rb_pairs = [(a, b) for a in sts for b in sorted({1, 2, nsblk + 1, 3 * nsblk, 70 * nsblk + 1, max(1, N - a), N + 1 - max(a, 0)})]
+    else:
+        rb_pairs = [(a, b) for a in range(-1, N + 1) for b in range(1, N + 2)]
+    for start, ns in rb_pairs:
+        if True:
             if not run("read_block", [start, ns]):
                 continue
             res.evaluations += 1
@@ -194,9 +207,13 @@ def run_shard(shard: dict, ctx, res, only=None) -> None:
             if k > 0:
                 res.nontrivial += 1
     # ---- read_plan
-    for g in range(1, N + 3):
-        for start in range(N):
-            for ns in [*range(1, N - start + 1), None]:
+    if long:
+        rp = [(g, a, b) for g in (1, nsblk + 1, 100, 257, N) for a, b in ((0, None), (nsblk * 63 + 1, 41), (3, N - 7), (nsblk * 64, None))]
+    else:
+        rp = [(g, a, b) for g in range(1, N + 3) for a in range(N) for b in [*range(1, N - a + 1), None]]
+    for g, start, ns in rp:
+        if True:
+            if True:
                 n_eff = (N - start) if ns is None else ns
                 for s in sorted({0, min(g, n_eff) // 2}):
                     if not run("read_plan", [g, start, ns, s]):
@@ -235,7 +252,7 @@ def run_shard(shard: dict, ctx, res, only=None) -> None:
         res.violation({"site": "Header.from_pfits", "symptom": "header quantities cannot be used as plain numbers"}, {"shard": shard, "inner": ["reductions", "setup"]}, repr(e))
         return
     maxd = {dm: int(np.max(np.asarray(rdr.header.get_dmdelays(dm)))) for dm in (0.0, 2.0)}
-    for g in (1, 2, nsblk, nsblk + 1, N, 10 * N):
+    for g in ((nsblk + 1, 97, N) if long else (1, 2, nsblk, nsblk + 1, N, 10 * N)):
         for api in ("collapse", "bandpass", "read_chan:0", f"read_chan:{C - 1}", "dedisperse:0.0", "dedisperse:2.0", "stats"):
             if not run("reductions", [api, g]):
                 continue
